@@ -1,5 +1,6 @@
 """C06 - upgrade handshake (DESIGN.md 5/C06)."""
 from . import sockrules as S
+from . import srvrules as R
 
 META = {'level': 'other', 'explanation': 'see DESIGN.md 5/C06', 'trusted_base': [],
         'not_decided': [], 'assumptions': []}
@@ -10,3 +11,5 @@ def check(A):
         S.upgrade_handshake(A, fl, 'C06')
         S.upgrade_exit_state(A, fl, 'C06')
         S.direct_websocket(A, fl, 'C06')
+        S.get_request_rules(A, fl, 'C06')
+        R.upgrade_configured_rule(A, fl, 'C06')
